@@ -1,7 +1,7 @@
 (** C07 -- WSDL/XSD are well-formed, closed, deterministic and drive a foreign client.
     Property theorems only; each closed by [exact] of a lemma proved in coq/C07/. *)
 From Coq Require Import ZArith List Bool Permutation.
-From SpyneV Require Import Base.Prelude C07.Model C07.SortProofs C07.PrefixProofs C07.WsdlProofs C07.TopoProofs C07.SchemaProofs.
+From SpyneV Require Import Base.Prelude C07.Model C07.SortProofs C07.PrefixProofs C07.WsdlProofs C07.TopoProofs C07.SchemaProofs C07.TieProofs.
 Import ListNotations.
 Open Scope Z_scope.
 
@@ -60,6 +60,33 @@ Theorem C07_doc_det : forall perm1 perm2 a imp,
   wsdl_of perm1 a = wsdl_of perm2 (with_imports a imp) /\
   render perm1 a = render perm2 (with_imports a imp).
 Proof. exact doc_det_thm. Qed.
+
+(** the same with the hypothesis in its decidable form, which the harness evaluates
+    on the snapshot of every generated application *)
+Theorem C07_doc_det_decidable : forall perm1 perm2 a imp,
+  (forall l, Permutation (perm1 l) l) -> (forall l, Permutation (perm2 l) l) ->
+  imports_equiv (a_imports a) imp -> key_injb a = true ->
+  wsdl_of perm1 a = wsdl_of perm2 (with_imports a imp) /\
+  render perm1 a = render perm2 (with_imports a imp).
+Proof. exact doc_det_b. Qed.
+
+(** ties are harmless between classes that write nothing: the same conclusion when,
+    in every tier, the key separates the classes whose handler writes a node
+    (Array(...) specialisations and customised variants of a class share all four
+    components of the key; default simple types among them are only tagged) *)
+Theorem C07_doc_det_tiers : forall perm1 perm2 a imp,
+  (forall l, Permutation (perm1 l) l) -> (forall l, Permutation (perm2 l) l) ->
+  imports_equiv (a_imports a) imp -> tier_sepb a = true ->
+  wsdl_of perm1 a = wsdl_of perm2 (with_imports a imp) /\
+  render perm1 a = render perm2 (with_imports a imp).
+Proof. exact doc_det_tiers_thm. Qed.
+
+(** the tuple toposort2 sorts by (read from the source) has the namespace, the type
+    name and the element name of a class among its components: classes it cannot
+    tell apart are published under the same names *)
+Theorem C07_topo_key_names :
+  forallb (fun k => existsb (kcomp_eqb k) gen_topo_key) [KNamespace; KTypeName; KSubName] = true.
+Proof. exact topo_key_names. Qed.
 
 (** every message, portType and binding reference of the WSDL resolves to a
     definition in the document, for every snapshot on which the build succeeds *)
@@ -211,13 +238,13 @@ Qed.
     class in another namespace, a header that extends it from a third one, a fault;
     the hypothesis of C07_schema_closed holds and the build succeeds *)
 Definition kcls (id : Z) (ns tn : text) (base : option Z) (fs : list (text * Z)) : cls :=
-  {| c_id := id; c_repr := tn; c_ns := ns; c_tn := tn; c_kind := KComplex; c_base := base;
+  {| c_id := id; c_repr := tn; c_subs := []; c_ns := ns; c_tn := tn; c_kind := KComplex; c_base := base;
      c_fields := fs; c_ename := tn; c_ens := ns |}.
 Definition cmsg (id : Z) (ns tn : text) : msg :=
   {| m_cid := id; m_complex := true; m_ename := tn; m_ens := ns; m_tn := tn; m_tns := ns; m_part := tn |}.
 Definition ex_schema_app : snap :=
   {| a_tns := tns0; a_name := [65];
-     a_classes := [ {| c_id := 0; c_repr := [115]; c_ns := xsd_ns; c_tn := [115; 116; 114; 105; 110; 103];
+     a_classes := [ {| c_id := 0; c_repr := [115]; c_subs := []; c_ns := xsd_ns; c_tn := [115; 116; 114; 105; 110; 103];
                        c_kind := KPlain; c_base := None; c_fields := []; c_ename := []; c_ens := xsd_ns |};
                     kcls 1 tns0 [109] None [([97], 0)]; kcls 2 tns0 [114] None [([120], 3)];
                     kcls 3 [107] [75] None [([115], 0)]; kcls 4 [104] [72] (Some 3) []; kcls 5 tns0 [70] None [] ];
@@ -240,7 +267,7 @@ Proof. split; [vm_compute; reflexivity|]. eexists. split; [vm_compute; reflexivi
     (known finding C07|closed|dangling-element|message/part|bare-class-reused-as-header) *)
 Definition header_reuse_app : snap :=
   {| a_tns := tns0; a_name := [65];
-     a_classes := [ {| c_id := 1; c_repr := [75]; c_ns := [107]; c_tn := [75]; c_kind := KComplex; c_base := None;
+     a_classes := [ {| c_id := 1; c_repr := [75]; c_subs := [114]; c_ns := [107]; c_tn := [75]; c_kind := KComplex; c_base := None;
                        c_fields := []; c_ename := [114]; c_ens := tns0 |} ];
      a_deps := [(1, [])]; a_imports := [(tns0, [[107]]); ([107], [])];
      a_svcs := [ {| s_name := [83]; s_ports := [];
@@ -261,4 +288,40 @@ Proof.
   - left. reflexivity.
   - simpl in Hs. destruct Hs as [<-|[<-|[]]]; vm_compute in E; try discriminate.
     vm_compute in Hin. tauto.
+Qed.
+
+(** the hypotheses of C07_doc_det / C07_doc_det_decidable hold on that snapshot, and
+    reversing every set (the tiers, the import sets) leaves the rendering unchanged *)
+Example C07_ex_det : key_injb ex_schema_app = true /\
+  imports_equiv (a_imports ex_schema_app) [(tns0, [[104]; [107]]); ([107], []); ([104], [[107]])] /\
+  render (fun l => l) ex_schema_app
+  = render (@rev Z) (with_imports ex_schema_app [(tns0, [[104]; [107]]); ([107], []); ([104], [[107]])]) /\
+  exists r, render (fun l => l) ex_schema_app = ROk r.
+Proof.
+  split; [vm_compute; reflexivity|]. split.
+  - constructor; [split; [reflexivity|apply perm_swap]|].
+    constructor; [split; [reflexivity|apply Permutation_refl]|].
+    constructor; [split; [reflexivity|apply Permutation_refl]|]. constructor.
+  - split; [vm_compute; reflexivity|]. eexists. vm_compute. reflexivity.
+Qed.
+
+(** Unicode and the Unicode(max_occurs=inf) an Array holds: one key, two classes;
+    C07_doc_det does not apply, C07_doc_det_tiers does *)
+Definition plain_twins_app : snap :=
+  let str id := {| c_id := id; c_repr := [115]; c_subs := []; c_ns := xsd_ns; c_tn := [115; 116; 114; 105; 110; 103];
+                   c_kind := KPlain; c_base := None; c_fields := []; c_ename := []; c_ens := xsd_ns |} in
+  {| a_tns := tns0; a_name := [65];
+     a_classes := [ str 0; str 9; kcls 1 tns0 [109] None [([97], 0); ([98], 9)]; kcls 2 tns0 [114] None [] ];
+     a_deps := [(1, [0; 9]); (2, [])]; a_imports := [(tns0, [])];
+     a_svcs := [ {| s_name := [83]; s_ports := [];
+                    s_meths := [ {| me_name := [109]; me_op := [109]; me_port := None;
+                                    me_in := cmsg 1 tns0 [109]; me_out := cmsg 2 tns0 [114];
+                                    me_inh := None; me_outh := None; me_faults := [] |} ] |} ];
+     a_pst := pst0 |}.
+Example C07_ex_tiers : key_injb plain_twins_app = false /\ tier_sepb plain_twins_app = true /\
+  tier_sepb ex_schema_app = true /\
+  exists r, render (fun l => l) plain_twins_app = ROk r /\ render (@rev Z) plain_twins_app = ROk r.
+Proof.
+  split; [vm_compute; reflexivity|]. split; [vm_compute; reflexivity|]. split; [vm_compute; reflexivity|].
+  eexists. split; vm_compute; reflexivity.
 Qed.
